@@ -13,14 +13,26 @@ echo6 = Origin('echo', host='::1')
 uph = Origin(fake_http_proxy)
 ups = Origin(fake_socks_proxy)
 closed_port = free_port()
+def _always(reply):
+    def h(c, a, rec):
+        head, rest = recv_head(c, 5)
+        rec['rx'] += head
+        if reply is not None:
+            c.sendall(reply)
+            time.sleep(0.2)
+    return h
+up403 = Origin(_always(b'HTTP/1.1 403 Forbidden\r\nContent-Length: 2\r\n\r\nno'))
+upclose = Origin(_always(None))
+up200 = Origin(_always(b'HTTP/1.1 200 OK\r\nSession-Id: 5\r\n\r\n'))
 hp, sp, sap, snu, ap = free_port(), free_port(), free_port(), free_port(), free_port()
+UDPL = {k: free_port() for k in ('u403', 'uclose', 'u200')}
 cfg = {
     'listeners': [
         {'name': 'http', 'bind': f'127.0.0.1:{hp}'},
         {'name': 'socks', 'bind': f'127.0.0.1:{sp}'},
         {'name': 'socksauth', 'type': 'socks', 'bind': f'127.0.0.1:{sap}', 'auth': {'required': True, 'users': [{'username': 'u', 'password': 'p'}]}},
         {'name': 'socksnoudp', 'type': 'socks', 'bind': f'127.0.0.1:{snu}', 'allowUdp': False},
-    ],
+    ] + [{'name': f'socks-{k}', 'type': 'socks', 'bind': f'127.0.0.1:{UDPL[k]}'} for k in UDPL],
     'connectors': [
         {'name': 'direct'},
         {'name': 'h', 'type': 'http', 'server': '127.0.0.1', 'port': uph.port},
@@ -28,8 +40,14 @@ cfg = {
         {'name': 's4', 'type': 'socks', 'server': '127.0.0.1', 'port': ups.port, 'version': 4},
         {'name': 'hdown', 'type': 'http', 'server': '127.0.0.1', 'port': closed_port},
         {'name': 's5down', 'type': 'socks', 'server': '127.0.0.1', 'port': closed_port},
+        {'name': 'u403', 'type': 'http', 'server': '127.0.0.1', 'port': up403.port},
+        {'name': 'uclose', 'type': 'http', 'server': '127.0.0.1', 'port': upclose.port},
+        {'name': 'u200', 'type': 'http', 'server': '127.0.0.1', 'port': up200.port},
     ],
     'rules': [
+        {'filter': 'request.listener == "socks-u403" || request.target.port == 1403', 'target': 'u403'},
+        {'filter': 'request.listener == "socks-uclose" || request.target.port == 1404', 'target': 'uclose'},
+        {'filter': 'request.listener == "socks-u200" || request.target.port == 1200', 'target': 'u200'},
         {'filter': 'request.target.port == 1001', 'target': 'h'},
         {'filter': 'request.target.port == 1002', 'target': 's5'},
         {'filter': 'request.target.port == 1003', 'target': 's4'},
@@ -266,6 +284,32 @@ def after_success(name, opener, success_len):
     elif how not in ('eof', 'reset'):
         chk.violation('reply.close', f'control-connection-left-open:{name}', f'{name}: udp idle timeout is 1 s, the control connection is still open after 4 s', {'case': name})
 
+# ---- UDP requests through an upstream proxy that refuses / closes / accepts: 'established' iff it accepted
+def udp_via(kind, client):
+    def f():
+        if client == 'socks5':
+            s, r = socks5_connect(UDPL[kind], '0.0.0.0', 0, cmd=3, timeout=5)
+            extra, how = (b'', None) if r['rep'] == 0 else recv_until_eof(s, 3)
+            s.close()
+            if r['rep'] == 0:
+                return 'established', None, False, r['reply']
+            if r['rep'] is None:
+                return 'nothing', None, True, r['reply']
+            return 'failure', (None if len(r['reply']) >= 10 and not extra else f"reply {r['reply'].hex()} + {extra[:16].hex()}"), how in ('eof', 'reset'), r['reply']
+        port = {'u403': 1403, 'uclose': 1404, 'u200': 1200}[kind]
+        return http_bad(b'Proxy-Protocol: udp\r\n', target=f'10.9.8.7:{port}')()
+    return f
+def expect_established(name, fn):
+    global evals
+    evals += 1
+    try:
+        told, malformed, closed, raw = fn()
+    except OSError as e:
+        told, malformed, closed, raw = 'error', repr(e), False, b''
+    distinct.add((name, told))
+    if told != 'established':
+        chk.violation('reply.iff', f'upstream-established-but-client-told-{told}:{name}', f'{name}: {raw[:60]!r}', {'case': name})
+
 def assoc_idle():
     s, r = socks5_connect(sp, '0.0.0.0', 0, cmd=3, timeout=5)
     return s, (r['reply'] if r['rep'] == 0 else None)
@@ -280,6 +324,10 @@ def assoc_used_then_idle():
 def http_udp_idle():
     s, code, head, rest = http_connect(hp, '127.0.0.1:9', extra_headers=b'Proxy-Protocol: udp\r\n', timeout=5)
     return s, (head if code == 200 else None)
+for client in ('socks5', 'http'):
+    special(f'{client}-udp-upstream-says-403', udp_via('u403', client), True)
+    special(f'{client}-udp-upstream-closes', udp_via('uclose', client), True)
+    expect_established(f'{client}-udp-upstream-accepts', udp_via('u200', client))
 after_success('socks5-udp-associate-idle-timeout', assoc_idle, 10)
 after_success('socks5-udp-associate-datagram-to-closed-port-then-idle', assoc_used_then_idle, 10)
 after_success('http-udp-inline-idle-timeout', http_udp_idle, 0)
@@ -288,11 +336,11 @@ alive = px.alive()
 if not alive:
     chk.violation('process', 'proxy-died', f'proxy exited with {px.returncode()}: {px.log()[-400:]}', {})
 px.stop()
-for o in (echo4, echo6, uph, ups):
+for o in (echo4, echo6, uph, ups, up403, upclose, up200):
     o.stop()
 if evals < 50 or len(distinct) < 6:
     machinery(f'vacuous: evals={evals} distinct={len(distinct)}')
 cov = {'evaluations': evals, 'distinct_nontrivial': len(distinct), 'transitions': evals, 'traces_validated_against_impl': evals,
-       'rule': 'real binary: client protocol {http, socks5, socks4/4a} x 33 routes (direct v4/v6/refused; an http upstream that refuses with 1..40000 bytes of explanation in its headers; http, socks5, socks4 upstreams behaving ok / saying no / closing mid-handshake / sending garbage; denied; no rule; upstream port closed) + BIND, unknown command, UDP not allowed, 3 authentication failures, 4 HTTP requests the listener cannot serve (UDP channel it does not offer, unknown protocol, target without port); UDP sessions (socks5 associate idle / after a datagram to a closed port, http inline) ending by idle timeout after their success reply must get nothing more; reply parsed strictly, echo round trip decides whether the tunnel really works',
+       'rule': 'real binary: client protocol {http, socks5, socks4/4a} x 33 routes (direct v4/v6/refused; an http upstream that refuses with 1..40000 bytes of explanation in its headers; http, socks5, socks4 upstreams behaving ok / saying no / closing mid-handshake / sending garbage; denied; no rule; upstream port closed) + BIND, unknown command, UDP not allowed, 3 authentication failures, 4 HTTP requests the listener cannot serve (UDP channel it does not offer, unknown protocol, target without port); UDP requests (socks5 associate, http CONNECT udp) through an http upstream that answers 403 / closes / accepts; UDP sessions (socks5 associate idle / after a datagram to a closed port, http inline) ending by idle timeout after their success reply must get nothing more; reply parsed strictly, echo round trip decides whether the tunnel really works',
        'clients': CLIENTS, 'routes': len(ROUTES), 'schedule_control': 'kernel', 'samples': samples}
 sys.exit(chk.finish('model_checking', cov, ['E4 part: fake upstream proxies in Python decide their behaviour from the requested host name']))
